@@ -523,11 +523,12 @@ Warning: rounding to n-th business day not supported for input value");
 				 * next/prev date is requested */
 				;
 			} else if (forw) {
-				/* years don't wrap around */
-				d.ywd.y++;
+				/* years don't wrap around,
+				 * dt_dadd_y() keeps the Jan-01 offset right */
+				d = dt_dadd_y(d, 1);
 			} else {
 				/* years don't wrap around */
-				d.ywd.y--;
+				d = dt_dadd_y(d, -1);
 			}
 			/* final assignment */
 			d.ywd.c = tgt;
